@@ -252,8 +252,10 @@ def dpr_oracle(case, out, want=("pr", "map32", "sft")):
                 check(op, parse_dpr_state(rest))
             elif t[1] == "release":
                 sp, c = int(t[2]), int(t[3])
-                if c in owned[sp]:
-                    owned[sp].remove(c)
+                if c not in owned[sp]:
+                    dead = True          # not a protocol-respecting history (e.g. produced by shrinking): nothing to check
+                    continue
+                owned[sp].remove(c)
                 check(op, parse_dpr_state(o[3:]))
             elif t[1] == "releaseall":
                 owned[int(t[2])] = []
@@ -367,6 +369,14 @@ def gc_program(plan, rnd, rounds, workers=1):
     ops = ["alloc 0 0 1 0 8 0 Default 63", "vmroot 255 0", "root 0 63 null"]     # anchor (keeps MarkCompact's F-H away)
     nid, live = 1, {}                       # slot -> id
     ops += probe_ops()
+    # scripted prologue: three multi-chunk regions A, B, C on the LOS list (C is the head); release the HEAD while
+    # A and B survive, then (with a new head D) the MIDDLE one, then the TAIL
+    for s, payload in ((0, 9 * MB), (1, 5 * MB), (2, 9 * MB + 4096)):
+        ops.append(f"alloc 0 {nid} 0 {payload} 8 0 Los {s}"); live[s] = nid; nid += 1
+    ops += ["root 0 2 null", "gc 0 1"] + probe_ops(); del live[2]
+    ops.append(f"alloc 0 {nid} 0 {13 * MB} 8 0 Los 2"); live[2] = nid; nid += 1
+    ops += ["root 0 1 null", "gc 0 1"] + probe_ops(); del live[1]
+    ops += ["root 0 0 null", "gc 0 1"] + probe_ops(); del live[0]
     for r in range(rounds):
         for _ in range(rnd.randrange(1, 3)):
             free = [s for s in range(0, 4) if s not in live]
@@ -407,7 +417,7 @@ def gc_suite(seed, tier):
     progs = []
     for i, plan in enumerate(plans):
         rnd = random.Random(f"{seed}/lay32/{plan}/{i}")
-        progs.append(gc_program(plan, rnd, rounds=6 if tier == "quick" else 14, workers=1 if i % 2 == 0 else 4))
+        progs.append(gc_program(plan, rnd, rounds=4 if tier == "quick" else 12, workers=1 if i % 2 == 0 else 4))
     return progs
 
 
@@ -451,6 +461,8 @@ def gc_oracle(trace, st=None):
                     live.pop(slot[s], None)
                 slot[s] = int(t[2])
                 live[int(t[2])] = (int(m.group(1), 16), int(m.group(2)), m.group(3))
+                for x in range(int(m.group(1), 16) // CHUNK, (int(m.group(1), 16) + int(m.group(2)) - 1) // CHUNK + 1):
+                    ever[x] = m.group(3)
                 inc(f"los-objects:{-(-int(m.group(2)) // CHUNK)}-chunks")
         elif t[0] == "root" and t[3] == "null":
             live.pop(slot.pop(int(t[2]), None), None)
